@@ -460,16 +460,25 @@ func (f *Func) reachTarget(
 		// While the arguments of a converter on the way to a named value are
 		// reached, that value's name stays the preferred one: the converter's
 		// type-only inputs should be fed by the same-named value as well.
+		// A named input of such a converter adds its own name to the
+		// preferred ones, it does not replace them.
 		affinity := state.Affinity
 		if currentValue, ok := current.(*valueVertex); ok {
-			affinity = currentValue.Name
+			affinity = append(affinity[:len(affinity):len(affinity)], currentValue.Name)
 		}
-		if affinity != "" {
+		if len(affinity) > 0 {
 			currentG = currentG.Copy()
 			for _, raw := range currentG.Vertices() {
-				if v, ok := raw.(*valueVertex); ok && v.Name == affinity {
-					for _, src := range currentG.InEdges(raw) {
-						currentG.AddEdgeWeighted(src, raw, weightMatchingName)
+				v, ok := raw.(*valueVertex)
+				if !ok {
+					continue
+				}
+				for _, name := range affinity {
+					if v.Name == name {
+						for _, src := range currentG.InEdges(raw) {
+							currentG.AddEdgeWeighted(src, raw, weightMatchingName)
+						}
+						break
 					}
 				}
 			}
@@ -557,7 +566,7 @@ func (f *Func) reachTarget(
 		// name for everything that has to be reached along this path.
 		oldAffinity := state.Affinity
 		if cv, ok := vertexT[pathI].(*valueVertex); ok {
-			state.Affinity = cv.Name
+			state.Affinity = append(oldAffinity[:len(oldAffinity):len(oldAffinity)], cv.Name)
 		}
 
 		for pathIdx, vertex := range path {
@@ -758,10 +767,10 @@ type callState struct {
 	// that transitively depend on themselves.
 	Reaching map[interface{}]struct{}
 
-	// Affinity is the name of the named value that is currently being
-	// produced, or empty. Values with this name are preferred as inputs of
-	// the converters on the way there.
-	Affinity string
+	// Affinity holds the names of the named values that are currently being
+	// produced, outermost first. Values with these names are preferred as
+	// inputs of the converters on the way there.
+	Affinity []string
 }
 
 func newCallState() *callState {
